@@ -724,11 +724,13 @@ Qed.
 
 Lemma spec_outcome_holds : forall cfg g er,
   reachable cfg g -> eng g = Some er ->
-  spec_outcome_b (er_fails er) (er_cancelled er) (er_res er) = true.
+  spec_outcome_b (er_fails er) (er_cancelled er) (forallb front_is_nil (pools g)) (er_res er) = true.
 Proof.
   intros cfg g er HR He. destruct (gi_ret _ _ (reachable_GI _ _ HR) er He) as (R1 & R2 & R3 & R4).
   unfold spec_outcome_b. destruct (er_res er) as [| |c] eqn:Er.
-  - destruct (R1 eq_refl) as [_ [H|H]]; rewrite H; [reflexivity|apply orb_true_r].
+  - destruct (R1 eq_refl) as [Hf Hx]. apply andb_true_iff. split.
+    + apply forallb_forall. intros s Hin. unfold front_is_nil. rewrite (Hf s Hin). reflexivity.
+    + destruct Hx as [H|H]; rewrite H; [reflexivity|apply orb_true_r].
   - apply R3. reflexivity.
   - destruct (R2 c eq_refl) as [H1 H2]. rewrite H1. cbn. apply cause_in_spec. exact H2.
 Qed.
